@@ -97,11 +97,11 @@ func newTallySet(name string) *tallySet {
 	add(entryKind{Name: "W0", Pub: v0.pub, Sig: nodeSign("V0", other), Signer: -1, WellFormed: true, Claims: 0, WrongMsg: true})
 	add(entryKind{Name: "N", Pub: nk("N").pub, Sig: nodeSign("N", ts.Msg), Signer: -1, WellFormed: true, Claims: -1, Foreign: true})
 	add(entryKind{Name: "X01", Pub: v0.pub, Sig: nodeSign("V1", ts.Msg), Signer: -1, WellFormed: true, Claims: 0})
-	add(entryKind{Name: "PS", Pub: v0.pub[:31], Sig: s0, Signer: -1, Claims: -1})                                   // pubkey one byte short: not V0's key
-	add(entryKind{Name: "PL", Pub: append(append([]byte{}, v0.pub...), 0), Sig: s0, Signer: 0, Claims: -1})         // pubkey one byte long
-	add(entryKind{Name: "SS", Pub: v0.pub, Sig: s0[:32], Signer: -1, Claims: 0})                                    // half a signature
-	add(entryKind{Name: "SL", Pub: v0.pub, Sig: append(append([]byte{}, s0...), 0), Signer: 0, Claims: -1})         // signature one byte long
-	add(entryKind{Name: "E", Pub: nil, Sig: nil, Signer: -1, Claims: -1})                                           // empty entry
+	add(entryKind{Name: "PS", Pub: v0.pub[:31], Sig: s0, Signer: -1, Claims: -1})                           // pubkey one byte short: not V0's key
+	add(entryKind{Name: "PL", Pub: append(append([]byte{}, v0.pub...), 0), Sig: s0, Signer: 0, Claims: -1}) // pubkey one byte long
+	add(entryKind{Name: "SS", Pub: v0.pub, Sig: s0[:32], Signer: -1, Claims: 0})                            // half a signature
+	add(entryKind{Name: "SL", Pub: v0.pub, Sig: append(append([]byte{}, s0...), 0), Signer: 0, Claims: -1}) // signature one byte long
+	add(entryKind{Name: "E", Pub: nil, Sig: nil, Signer: -1, Claims: -1})                                   // empty entry
 	for i := range ts.Kinds {
 		ts.ByName[ts.Kinds[i].Name] = &ts.Kinds[i]
 	}
@@ -113,9 +113,9 @@ type tallyModel struct {
 	Lower int64 // Σ power over distinct validators (power>0) with ≥1 well-formed genuine entry
 	Upper int64 // … with ≥1 genuine entry in any encoding
 	// hypotheses used only to NAME the defect when the implementation over-accepts
-	Dup      int64 // genuine entries counted with multiplicity
-	WrongMsg int64 // distinct, entries over another message counted too
-	AnySig   int64 // distinct, every entry whose key is a validator's counted whatever the signature
+	Dup                              int64 // genuine entries counted with multiplicity
+	WrongMsg                         int64 // distinct, entries over another message counted too
+	AnySig                           int64 // distinct, every entry whose key is a validator's counted whatever the signature
 	HasForeign, HasMalformed, HasDup bool
 }
 
@@ -239,17 +239,21 @@ func (ts *tallySet) run(kase tallyCase) tallyResult {
 	switch {
 	case accepted && !may:
 		kind := "insufficient-signatures-accepted"
+		top := m.Upper
+		if m.Dup > top {
+			top = m.Dup
+		}
 		switch {
 		case moreThanTwoThirds(m.Dup, ts.Total):
 			kind = "duplicate-signer-counted-repeatedly"
+		case 3*top >= 2*ts.Total || top >= 2*ts.Total/3:
+			kind = "exactly-two-thirds-accepted"
 		case moreThanTwoThirds(m.WrongMsg, ts.Total):
 			kind = "signature-over-other-message-counted"
 		case moreThanTwoThirds(m.AnySig, ts.Total):
 			kind = "unverified-signature-counted"
-		case m.HasForeign && !m.HasDup:
+		case m.HasForeign:
 			kind = "non-validator-signer-counted"
-		case 3*m.Upper >= 2*ts.Total || m.Upper >= 2*ts.Total/3:
-			kind = "exactly-two-thirds-accepted"
 		}
 		res.Viol = true
 		res.Sig = map[string]string{"part": "tally", "site": site, "kind": kind}
@@ -273,4 +277,3 @@ func (ts *tallySet) run(kase tallyCase) tallyResult {
 	}
 	return res
 }
-
